@@ -203,6 +203,52 @@ def parse_int(ex, st, ty):
     notok = mk_bool(not ok.c) if ok.c is not None else BV(z3.Not(ok.t))
     return en2(notok, [IV(res_val, ty, min(vlo, 0), max(vhi, 0))], [Opaque('ParseIntError')], 'Result')
 
+def unicode_case(ex, st, upper):
+    """str::to_uppercase / to_lowercase on a bounded string of ASCII and two-byte characters: the mapping of every two-byte character
+    is std's own (table printed by the native build of this run); the result may be shorter or longer than the input"""
+    tbl = ex.scratch.case_table()
+    n = max(0, min(st.len.hi, len(st.buf)))
+    if n > 24: raise Inconclusive('to_uppercase/to_lowercase on more than 24 bytes')
+    bs = [byte_at(st, mk_int(i, 'usize')) for i in range(n)]
+    if not upper and any(b.hi >= 0xCE and b.lo <= 0xCF for b in bs): raise Inconclusive('to_lowercase near Greek sigma (context-sensitive final sigma) is not modelled')
+    # per position: is a character start inside the string, output width, output bytes
+    width = []; outb = []
+    for i in range(n):
+        b = bs[i]; inside = ige(st.len, i + 1)
+        asc = b.hi < 128; maybe_lead = b.hi >= 0xC2 and b.lo <= 0xDF and i + 1 < n
+        if upper: a0 = z3.If(z3.And(b.t >= 97, b.t <= 122), b.t - 32, b.t)
+        else: a0 = z3.If(z3.And(b.t >= 65, b.t <= 90), b.t + 32, b.t)
+        w = z3.If(b.t < 128, 1, z3.If(b.t >= 0xC2, 2, 0))       # continuation bytes emit nothing themselves
+        ob = [z3.If(b.t < 128, a0, b.t)] + ([bs[i + 1].t] if i + 1 < n else [z3.IntVal(0)]) + [z3.IntVal(0)] * 4
+        if maybe_lead:
+            b1 = bs[i + 1]
+            for cp, (u, l) in tbl.items():
+                x0 = 0xC0 | (cp >> 6); x1 = 0x80 | (cp & 63)
+                if not (b.lo <= x0 <= b.hi and b1.lo <= x1 <= b1.hi): continue
+                r = u if upper else l
+                if r == bytes([x0, x1]): continue
+                c = z3.And(b.t == x0, b1.t == x1)
+                w = z3.If(c, len(r), w)
+                for k in range(6): ob[k] = z3.If(c, r[k] if k < len(r) else 0, ob[k])
+        width.append(z3.If(inside, w, 0) if not z3.is_true(inside) else w); outb.append(ob)
+    offs = [z3.IntVal(0)]
+    for i in range(n): offs.append(offs[-1] + width[i])
+    M = min(3 * n, 72)
+    fresh = []
+    for j in range(M):
+        t = z3.IntVal(0)
+        for i in range(n - 1, -1, -1):
+            for k in range(5, -1, -1):
+                t = z3.If(z3.And(offs[i] + k == j, k < width[i]), outb[i][k], t)
+        # name the byte: keeps later terms small
+        ex.ctx.n += 1
+        x = z3.Int('upc_%d_%d' % (ex.ctx.n, j)); ex.ctx.side.append(x == t); ex.ctx.side.append(z3.And(x >= 0, x <= 255))
+        fresh.append(IV(x, 'u8', 0, 255))
+    ex.ctx.n += 1
+    ln = z3.Int('upc_len_%d' % ex.ctx.n); ex.ctx.side.append(ln == offs[n])
+    ex.ctx.models_used.add('str::%s (ASCII + two-byte characters, std table of this build, at most 24 bytes)' % ('to_uppercase' if upper else 'to_lowercase'))
+    return StrV(fresh, mk_int(0, 'usize'), IV(ln, 'usize', 0, M))
+
 def call_pred(ex, clo, ch, guard, by_ref):
     arg = cell(ex, ch) if by_ref else ch
     v, rg = call_closure(ex, clo, [arg], guard)
@@ -273,6 +319,11 @@ def string_model(ex, c, args, guard, site):
             else: buf.append(IV(z3.If(z3.And(b.t >= lo_, b.t <= hi_), b.t + d_, b.t), 'u8', min(b.lo, max(b.lo, lo_) + d_), max(b.hi, min(b.hi, hi_) + d_)))
         ctx.models_used.add('str::%s (same length, ASCII letters only)' % m.group(1))
         return StrV(buf, st.start, st.len), T
+    m = re.match(r'^(?:core::str::<impl str>|std::str::<impl str>|alloc::str::<impl str>|str::<impl str>)::(to_uppercase|to_lowercase)$', cs)
+    if m:
+        v = ex.deref(args[0])
+        if not isinstance(v, (StrV, StrLit)): return None
+        return unicode_case(ex, as_str(ex, v), m.group(1) == 'to_uppercase'), T
     if cs == 'core::str::<impl str>::chars':
         v = ex.deref(args[0])
         if not isinstance(v, (StrV, StrLit)): return None
